@@ -1,5 +1,5 @@
 (* C10 -- at most 10 connections; excess get 503 and close; dead connections are reaped. *)
-From MH Require Import proofs.Server_proofs.
+From MH Require Import proofs.Server_proofs proofs.RunInv_proofs.
 
 Theorem C10_cap : forall BUF w toks, Inv BUF w toks -> (length (w_conns w) <= MAX_CONNECTIONS)%nat.
 Proof. intros BUF w toks H. apply (inv_cap BUF w toks H). Qed.
@@ -46,7 +46,16 @@ Check ((fun BUF w g => eq_refl) : forall BUF w g, handle_event BUF w (EvHup g) =
   | Some x => inl (set_conn w g (mkSC (clear_write_buffer (sc_conn x)) SClosed (sc_infl x) (sc_client x) (sc_out x) (sc_gid x)), [])
   end).
 
+(* over executed histories (any list of operations of the interpreter the correspondence run executes):
+   never more than 10 entries, all under distinct descriptor numbers *)
+Theorem C10_executed_capacity : forall BUF, (2 <= BUF)%nat -> N.of_nat BUF < U32_LIMIT -> forall ops id hk,
+  (length (w_conns (fst (run_srv_ops BUF id 0 hk world0 ops))) <= MAX_CONNECTIONS)%nat /\
+  NoDup (map fst (w_conns (fst (run_srv_ops BUF id 0 hk world0 ops)))).
+Proof. exact executed_capacity. Qed.
+Check (eq_refl : MAX_CONNECTIONS = 10%nat).
+
 Print Assumptions C10_cap.
 Print Assumptions C10_refuse_iff.
 Print Assumptions C10_distinct_descriptors.
 Print Assumptions C10_reaped.
+Print Assumptions C10_executed_capacity.
